@@ -37,6 +37,7 @@ type solveResult struct {
 	secs    float64
 	output  string
 	all     map[string]string // per-backend status (thorough)
+	malformed string          // a back end reported a parse/sort error in the query
 }
 
 func (o *Obligation) query(models bool) string {
@@ -141,6 +142,14 @@ func runSolvers(file string, timeout time.Duration, seed int, wantAll bool) solv
 			continue
 		}
 		res.all[x.name] = x.status
+		if res.malformed == "" {
+			for _, ln := range strings.Split(x.out, "\n") {
+				if strings.HasPrefix(strings.TrimSpace(ln), "(error") && !strings.Contains(ln, "model is not available") && !strings.Contains(ln, "annot get model") && !strings.Contains(ln, "annot get value") {
+					res.malformed = x.name + ": " + trimOut(ln)
+					break
+				}
+			}
+		}
 		outs = append(outs, fmt.Sprintf("--- %s (%.2fs): %s", x.name, x.secs, trimOut(x.out)))
 		if (x.status == "unsat" || x.status == "sat") && res.status == "unknown" {
 			res.status, res.backend, res.secs = x.status, x.name, x.secs
@@ -226,6 +235,10 @@ func (r *runner) discharge(o *Obligation) {
 				o.Guard, o.Goal, o.nAsserts = s.Guard, s.Goal, s.nAsserts
 				return
 			}
+			if s.Status == "error" {
+				o.Status, o.Output = "error", s.Name+"\n"+s.Output
+				return
+			}
 			if s.Status != "proved" {
 				all = false
 				break
@@ -249,6 +262,11 @@ func (r *runner) discharge(o *Obligation) {
 	}
 	res := runSolvers(file, to, r.seed, false)
 	o.Backend, o.Secs = res.backend, res.secs
+	o.file = file
+	if res.malformed != "" && !strings.Contains(res.malformed, "model is not available") {
+		o.Status, o.Output = "error", res.malformed // never a verdict
+		return
+	}
 	switch res.status {
 	case "unsat":
 		if o.Cover {
